@@ -67,6 +67,16 @@ def hooksReleasable (s : State) (hooks : List HookRef) : Bool :=
 def hooksOk (s : State) (hooks : List HookRef) : Bool :=
   !s.cfg.lastWeightOnly || hooksReleasable s hooks
 
+/-- Nothing refers to environment `k` yet: no roster task has it as parent, no task was launched
+    with its label, no deleted environment carried the id, and if it is listed its call
+    counters add up (the state in which a creation that has just been entered in the map finds
+    itself: environment ids are fresh). -/
+def freshEnv (s : State) (k : EnvId) : Bool :=
+  s.roster.all (fun t => decide (t.parent ≠ some k))
+  && s.master.all (fun m => decide (m.label ≠ k))
+  && s.dead.all (fun d => decide (d.1 ≠ k))
+  && s.envs.all (fun X => decide (X.id ≠ k) || decide (X.started = X.cancelled + X.pending))
+
 /-- What a round's operation obliges the view after the round to satisfy. -/
 inductive Claim where
   | clean (k : EnvId) (keep : Bool)    -- a destroy that returned success / a creation that failed
